@@ -7,7 +7,7 @@ CONSTANTS
   NChunks = 1
   MaxFiles = 2
   ReplIdx = {1, 2, 3, 4}
-  SlibIdx = {0, 1, 2}
+  SlibIdx = {0, 2}
   Merges = {0, 1, 2}
   SEs = {TRUE}
   Ignores = {FALSE}
